@@ -258,6 +258,8 @@ pub fn pair<H: Shape + Tagged, T: Shape>(out: &mut Vec<Value>) {
                     m["thin_slice_off"] = json!(t.slice.as_ptr() as usize - heap);
                     m["thin_as_ptr_is_block"] = json!(t.as_ptr() as usize == heap && t.ptr() as usize == heap);
                     m["thin_one_word"] = json!(size_of::<ThinArc<H, T>>() == 8 && size_of::<Option<ThinArc<H, T>>>() == 8);
+                    m["thin_refcnt_as_ptr_is_block"] = json!(<ThinArc<H, T> as arc_swap::RefCnt>::as_ptr(&t) as usize == heap);
+                    m["thin_pointer_fmt_is_block"] = json!(format!("{:p}", t) == format!("{:p}", heap as *const u8));
                     (heap, m, Box::new(move || match path {
                         "drop_thin" => drop(t),
                         "from_thin_drop" => drop(Arc::from_thin(t)),
@@ -427,6 +429,8 @@ pub fn single<T: Shape>(out: &mut Vec<Value>) {
                         && size_of::<ArcBorrow<'static, T>>() == 8 && size_of::<Option<ArcBorrow<'static, T>>>() == 8
                         && size_of::<UniqueArc<T>>() == 8 && size_of::<Option<UniqueArc<T>>>() == 8,
                     "dyn_two_words": size_of::<Arc<dyn Probe2>>() == 16 && size_of::<Option<Arc<dyn Probe2>>>() == 16,
+                    "refcnt_as_ptr_is_value_addr": <Arc<T> as arc_swap::RefCnt>::as_ptr(&a) as usize == data,
+                    "pointer_fmt_is_block": format!("{:p}", a) == format!("{:p}", heap as *const u8),
                 });
                 drop(off);
                 (heap, m, Box::new(move || unsafe {
@@ -584,6 +588,70 @@ pub fn union<X: Shape, Y: Shape>(out: &mut Vec<Value>) {
     }
 }
 
+/// real arc_swap::ArcSwapAny traffic over the RefCnt glue: the cell owns exactly one count of what it holds;
+/// store / swap / compare_and_swap hand counts over without creating or losing any; load_full adds one
+pub fn arcswap<T: Shape>(out: &mut Vec<Value>) {
+    use arc_swap::{ArcSwapAny, RefCnt};
+    let mut rec = json!({"family": "arcswap", "t": sh::<T>(), "ctor": "arc", "path": "store_swap_cas"});
+    note_progress(&rec);
+    ev::LOG.clear();
+    alloc::track(true);
+    let r = std::panic::catch_unwind(|| {
+        let a = Arc::new(T::fill(0x31));
+        let b = Arc::new(T::fill(0x32));
+        let (ha, hb) = (a.heap_ptr() as usize, b.heap_ptr() as usize);
+        let mut counts: Vec<(usize, usize)> = vec![];
+        let mut facts = vec![];
+        facts.push(("as_ptr_is_value_addr", <Arc<T> as RefCnt>::as_ptr(&a) as usize == Arc::as_ptr(&a) as usize));
+        let cell: ArcSwapAny<Arc<T>> = ArcSwapAny::new(a.clone());
+        counts.push((Arc::count(&a), Arc::count(&b))); // 2,1
+        let l = cell.load_full();
+        facts.push(("load_full_same_allocation", Arc::ptr_eq(&l, &a) && l.ok(0x31)));
+        counts.push((Arc::count(&a), Arc::count(&b))); // 3,1
+        drop(l);
+        {
+            let g = cell.load();
+            facts.push(("guard_sees_value", g.ok(0x31) && Arc::ptr_eq(&g, &a)));
+        }
+        counts.push((Arc::count(&a), Arc::count(&b))); // 2,1
+        cell.store(b.clone());
+        counts.push((Arc::count(&a), Arc::count(&b))); // 1,2
+        let old = cell.swap(a.clone());
+        facts.push(("swap_returns_previous", Arc::ptr_eq(&old, &b)));
+        counts.push((Arc::count(&a), Arc::count(&b))); // 2,2
+        drop(old);
+        let prev = cell.compare_and_swap(&a, b.clone());
+        facts.push(("cas_previous_is_a", Arc::ptr_eq(&prev, &a)));
+        drop(prev);
+        counts.push((Arc::count(&a), Arc::count(&b))); // 1,2
+        let inner = cell.into_inner();
+        facts.push(("into_inner_is_b", Arc::ptr_eq(&inner, &b)));
+        drop(inner);
+        counts.push((Arc::count(&a), Arc::count(&b))); // 1,1
+        drop(a);
+        drop(b);
+        (ha, hb, counts, facts)
+    });
+    alloc::track(false);
+    let seen = Seen { evs: ev::drain() };
+    match r {
+        Ok((ha, hb, counts, facts)) => {
+            rec["counts"] = json!(counts.iter().map(|c| vec![c.0, c.1]).collect::<Vec<_>>());
+            rec["expected_counts"] = json!([[2, 1], [3, 1], [2, 1], [1, 2], [2, 2], [1, 2], [1, 1]]);
+            rec["facts"] = json!(facts.iter().map(|f| (f.0.to_string(), f.1)).collect::<std::collections::BTreeMap<_, _>>());
+            rec["deallocs_a"] = seen.deallocs_of(ha);
+            rec["deallocs_b"] = seen.deallocs_of(hb);
+            rec["alloc_a"] = seen.alloc_of(ha);
+            rec["bad_events"] = json!(seen.bad());
+            rec["panicked"] = json!(false);
+        }
+        Err(_) => rec["panicked"] = json!(true),
+    }
+    out.push(rec);
+    // arc-swap keeps per-thread bookkeeping alive: do not really free what is registered here
+    ev::LOG.clear();
+}
+
 /// size computations that overflow isize must be refused with a panic before anything is allocated
 pub fn overflow<H: Shape + Tagged, T: Shape>(out: &mut Vec<Value>) {
     let sz = size_of::<T>().max(1);
@@ -654,6 +722,8 @@ pub fn run(out_path: &str) {
         for_hdr_elem!(union, &mut out; [Z1, Z16, S1a1, S2a2, S4a4, S8a8, S16a16, S64a64]; [Z1, Z16, S1a1, S2a2, S4a4, S8a8, S16a16, S64a64]);
     }
     for_hdr_elem!(overflow, &mut out; [Z1, S8a8, S12a4]; [S1a1, S4a4, S24a8]);
+    macro_rules! swaps { ($($t:ident),*) => { $( arcswap::<$t>(&mut out); )* } }
+    swaps!(Z1, S1a1, S8a8, S12a4, S16a16, S64a64);
     let f = std::fs::File::create(out_path).unwrap();
     let mut w = std::io::BufWriter::new(f);
     use std::io::Write;
